@@ -642,6 +642,7 @@ func check(prop, tier string, seed int64, replay string, budget time.Duration, w
 	}
 	var mu sync.Mutex
 	var viols []*ViolationRecord
+	keyCount := map[string]int{} // violations per key (distinct keys bound the search)
 	var harnessErr []string
 	var wg sync.WaitGroup
 	deadline := time.Now().Add(budget)
@@ -651,7 +652,7 @@ func check(prop, tier string, seed int64, replay string, budget time.Duration, w
 			defer wg.Done()
 			from := wi
 			name := fmt.Sprintf("w%d", wi)
-			for restarts := 0; restarts < 8; restarts++ {
+			for restarts := 0; restarts < 400; restarts++ {
 				left := time.Until(deadline)
 				if left <= 0 {
 					return
@@ -666,10 +667,13 @@ func check(prop, tier string, seed int64, replay string, budget time.Duration, w
 				}
 				if o.exit == 3 && o.viol != nil {
 					mu.Lock()
-					viols = append(viols, o.viol)
-					nv := len(viols)
+					keyCount[o.viol.Key()]++
+					if keyCount[o.viol.Key()] <= 3 {
+						viols = append(viols, o.viol)
+					}
+					nk := len(keyCount)
 					mu.Unlock()
-					if nv >= 12 {
+					if nk >= 12 {
 						return
 					}
 					from = o.viol.Run + workers
@@ -692,10 +696,13 @@ func check(prop, tier string, seed int64, replay string, budget time.Duration, w
 					return
 				}
 				mu.Lock()
-				viols = append(viols, r)
-				nv := len(viols)
+				keyCount[r.Key()]++
+				if keyCount[r.Key()] <= 3 {
+					viols = append(viols, r)
+				}
+				nk := len(keyCount)
 				mu.Unlock()
-				if nv >= 12 {
+				if nk >= 12 {
 					return
 				}
 				from = o.lastRun + workers
@@ -748,6 +755,15 @@ func check(prop, tier string, seed int64, replay string, budget time.Duration, w
 		minBudget := 30 * time.Second
 		if tier == "thorough" {
 			minBudget = 90 * time.Second
+		}
+		isKnown := false
+		for _, f := range findings {
+			if f.Property == prop && f.Status == "open" && f.Key == v.Key() {
+				isKnown = true
+			}
+		}
+		if isKnown {
+			minBudget = 3 * time.Second // a recorded finding: a token minimisation is enough
 		}
 		mv := minimise(bin, prop, v, outDir, minBudget, workers)
 		os.MkdirAll(filepath.Join(artifactDir, "replays"), 0755)
